@@ -23,6 +23,7 @@ type Env struct {
 	what   string
 	recFuel map[string]int // remaining unfoldings of recursive specs while translating their own bodies
 	skolem bool // translate top-level universal quantifiers of a goal by fresh constants
+	headEnv *Env // preservation check of a loop invariant: the environment of the loop HEAD of this iteration (athead)
 }
 
 func (e *Env) child() *Env {
@@ -1007,6 +1008,14 @@ func (e *Env) call(x *ECall) Val {
 		c.declIface()
 		t := e.typeOf(typeArgText(x.Args[1]))
 		return Val{T: "(dyn_ptr " + v.T + ")", Ty: t}
+	case "athead":
+		// athead(E) inside a loop invariant: the value E had at the loop head at the START of the iteration whose
+		// back edge is being checked (E itself where the invariant is established or assumed). Makes transition
+		// invariants expressible: `!athead(ok) ==> !ok` says that ok, once false, stays false.
+		if e.headEnv != nil {
+			return e.headEnv.tr(x.Args[0])
+		}
+		return e.tr(x.Args[0])
 	case "exhausted":
 		// exhausted(N): loop N (source order) was left through its own head - its condition became false / its range
 		// ran out - and not through a break, goto or return out of its body, the last time control left it
